@@ -263,8 +263,6 @@ def _run(cx, drv, quick, maxsegs, fsmax, nrand, work):
     cx.assumptions += [
         "symbolic links that already exist inside a base are not modelled (the temp tree contains none; Symlink itself is checked)",
         "an unrooted localfs (base '' or '/') confines nothing by design; it is covered only through os.ResolvePath with base '/'",
-        "localfs.Filesystem.MkdirTemp with dir == \"\" (Go convention: host default temp dir) is not treated as a path; the method is "
-        "not part of os.FS and is not reachable from scripts",
         "segments are abstracted to classes in leg V (\"\", \".\", \"..\", layout names, other names, other names beginning with ..)",
         "Paths.tla permits refusal of names whose cleaned form begins with the characters '..' (DESIGN 8.2)",
     ]
